@@ -110,6 +110,10 @@ SHAPES = [
     ("dunder:leading_only", "r.c.__token", True), ("dunder:leading_only2", "r.c.__state_", True),
     ("dunder:leading_only3", "r.__private", True), ("dunder:leading_gen", "any(x.__tok for x in [r.c])", True),
     ("dunder:leading_helper", "lower(r.c.__token)", True), ("dunder:triple", "r.c.___x", True),
+    # names with ONE leading underscore and a dunder tail (`_class__`): no alias may turn them into the dunder attribute
+    ("under:class", "r._class__", False), ("under:reduce", "r._reduce_ex__", False), ("under:setattr", "r._setattr__", False),
+    ("under:dict", "r._dict__", False), ("under:chain", "r._class__._desc", False), ("under:init", "r._init__", False),
+    ("under:slots", "r._slots__", False), ("under:canary", "r.c._class__", False),
     # --- a bare double-underscore *name*: not in the namespace; must be refused before the whitelist-module fallback
     ("dundername:class", "__class__", True), ("dundername:dict", "__dict__", True),
     ("dundername:attr", "__class__.gettypename", True), ("dundername:init", "__init__", True),
@@ -139,6 +143,12 @@ BENIGN = [
     ("ok:in_subnet", "r.c in net.ipv4.Subnet('10.0.0.0/8')", False),
     ("ok:in_subnet2", "any(x in net.ipv4.Subnet('10.0.0.0/8') for x in [r.c, '10.1.1.1'])", False),
     ("ok:in_network", "r.c in net.ipnetwork('10.0.0.0/8')", False),
+    # the `fields` helper handed values of the record instead of a type name: no method of the value is invoked
+    ("ok:fields_canary", "fields(r.c)", False), ("ok:fields_canary2", "any(f.name == 's' for f in fields(r.c))", False),
+    ("ok:fields_mixed", "fields('string') and fields(r.c)", False), ("ok:fields_gen", "any(fields(x) for x in [r.s, r.c])", False),
+    ("ok:fields_type", "fields(net.ipaddress)", False), ("ok:fields_str", "fields('string')", False),
+    # records compared with themselves (packs every field): a list that received a plain element in place keeps it
+    ("ok:self_eq", "r == r", False), ("ok:self_ne", "r != r", False), ("ok:self_eq_gen", "any(x == r for x in [r])", False),
     ("ok:type", "Type.string == 'abc'", False), ("ok:missing_attr", "r.s.nosuch", False), ("ok:any_canary", "any(x for x in [r.c])", False),
 ]
 # contexts: {H} is replaced by the shape; every context evaluates H at least once on the records used
@@ -251,6 +261,8 @@ def direct_invocations(log):
     out = []
     for ev in log:
         if ev[0] == "call":
+            if ev[1] == "c._pack" and ev[2] == ["base.py", "_pack"]:
+                continue      # Record.__eq__ packs its own field values (the canary poses as a field-type value)
             out.append(ev)
         elif ev[0] == "strmethod":
             fn, func = ev[2]
@@ -274,6 +286,24 @@ def _record(log, trip):
         _state["canary_cls"] = type("CanaryFT", (Canary, FieldType), {})
     rec = _state["desc"](s="abc", n=5, l=["a", "B"], c="placeholder", sl=["x", "Y"],
                          _generated=datetime.datetime(2020, 1, 1, tzinfo=datetime.timezone.utc))
+    rec.l.append("zz")          # a plain str added in place (the typed list converts it only when the record is packed)
+    if not _state.get("spy"):
+        # dunder attributes of the RECORD fetched by library code (selector.py / base.py frames) are logged
+        cls = type(rec)
+        base_ga = cls.__getattribute__
+
+        def spy(self, name, _ga=base_ga):
+            if name.startswith("__") and _state.get("log") is not None:
+                f = sys._getframe(1)
+                fn = os.path.basename(f.f_code.co_filename)
+                # the engine itself, or an attribute-resolution hook of the record class acting on its behalf (the
+                # record's own methods reading self.__slots__ etc. are not the engine's doing)
+                if fn == "selector.py" or (fn == "base.py" and f.f_code.co_name in ("__getattr__", "__getattribute__")):
+                    _state["log"].append(["dunder", "r", name, [fn, f.f_code.co_name]])
+            return _ga(self, name)
+        cls.__getattribute__ = spy
+        _state["spy"] = True
+    _state["log"] = log
     cs = _make_canary_str(log)
     object.__setattr__(rec, "s", cs("abc"))
     object.__setattr__(rec, "c", _state["canary_cls"](log, "c"))
@@ -281,12 +311,14 @@ def _record(log, trip):
 
 
 def _snapshot(rec):
-    return [(n, type(getattr(rec, n)).__name__, id(getattr(rec, n)), str(getattr(rec, n)) if n != "c" else "")
-            for n in rec._desc.get_all_fields()]
+    def elems(v):
+        return [(type(e).__name__, id(e)) for e in v] if isinstance(v, list) else None
+    return [(n, type(getattr(rec, n)).__name__, id(getattr(rec, n)), str(getattr(rec, n)) if n != "c" else "",
+             elems(getattr(rec, n))) for n in rec._desc.get_all_fields()]
 
 
 MODEL_RECORD = ["rec", "t/c09", [["s", "string", ["str", "abc"]], ["n", "varint", ["int", "5"]],
-                                ["l", "string[]", ["list", [["str", "a"], ["str", "B"]]]], ["c", "string", ["foreign", 100]],
+                                ["l", "string[]", ["list", [["str", "a"], ["str", "B"], ["str", "zz"]]]], ["c", "string", ["foreign", 100]],
                                 ["sl", "stringlist", ["list", [["str", "x"], ["str", "Y"]]]],
                                 ["_source", "string", ["none"]], ["_classification", "string", ["none"]],
                                 ["_generated", "datetime", ["fval", "datetime", ["int", "1577836800000000"]]],
@@ -366,6 +398,10 @@ def oracle(case, obs):
     if case["shape"].startswith("argeffect") and (obs.get("effects") or obs.get("helpers")):
         return (f"`{case['src']}`: the arguments of a refused call were evaluated before the refusal "
                 f"(invoked: {(obs.get('effects') or obs.get('helpers'))[:3]})")
+    if case["shape"].startswith("under:") and case["shape"] != "under:canary" and case["ctx"] == "bare" \
+            and "error" not in obs and obs.get("value") != ["missing"]:
+        return (f"`{case['src']}`: a name with one leading underscore and a dunder tail resolved to {obs.get('value')} "
+                f"instead of the missing-field sentinel (an alias reaching the record's dunder attributes)")
     if case["refused"] and "error" not in obs:
         return f"`{case['src']}`: a refused shape ({case['shape']}) evaluated to {obs.get('value')} without error"
     return None
